@@ -62,6 +62,25 @@ func TestC10Core(t *testing.T) {
 			}
 		}
 		app := drawCoreApps(rt, sizing, 20, 60_000)
+		// readers that stall at both ends close both windows: window probes and
+		// window announcements then travel in both directions and can fall due in
+		// one flush together with acknowledgements - the control segments have to
+		// fit the MTU like everything else
+		var pauseSum int64
+		stalls := rapid.Bool().Draw(rt, "stalls")
+		if stalls {
+			for w := 0; w < 2; w++ {
+				if len(app[w].Writes) == 0 {
+					app[w].Writes = []int{1, 1, 1, 1, 1, 1}
+				}
+				for i, n := 0, rapid.IntRange(1, 2).Draw(rt, "nStalls"); i < n; i++ {
+					ps := sim.Pause{AfterBytes: int64(rapid.IntRange(0, 3000).Draw(rt, "stallAfter")), Ms: int64(rapid.SampledFrom([]int{700, 3000, 20_000}).Draw(rt, "stallMs"))}
+					app[w].Pauses = append(app[w].Pauses, ps)
+					pauseSum += ps.Ms
+				}
+				sort.SliceStable(app[w].Pauses, func(i, j int) bool { return app[w].Pauses[i].AfterBytes < app[w].Pauses[j].AfterBytes })
+			}
+		}
 		var st sim.CoreStats
 		whileQueued, accepted, refused, nearBoundary, big := 0, 0, 0, 0, 0
 		rapid.SyncTest(rt, func(rt *rapid.T) {
@@ -104,7 +123,7 @@ func TestC10Core(t *testing.T) {
 				}
 				return e.Err
 			}
-			err := runUntilDrained(s, sizing, fs, app)
+			err := runUntilDrainedAfter(s, sizing, fs, app, 2*pauseSum+fs.EndTime())
 			st = s.Stats
 			if err == errScriptUnfinished {
 				rec.Class("script_unfinished_inconclusive", 1)
@@ -115,6 +134,9 @@ func TestC10Core(t *testing.T) {
 			}
 		})
 		var cl []string
+		if stalls {
+			cl = append(cl, "readers_stalled_at_both_ends")
+		}
 		if whileQueued > 0 {
 			cl = append(cl, "mtu_changed_with_data_queued")
 		}
